@@ -2,26 +2,286 @@ import JPV.Props.Common
 namespace JPV.Proofs
 open JPV
 
+/-! ### `rangeLen` recurrences -/
+
+theorem rangeLen_up_step {i u st : Int} (hst : 0 < st) (h : i < u) :
+    Py.rangeLen i u st = Py.rangeLen (i + st) u st + 1 := by
+  unfold Py.rangeLen
+  rw [if_pos hst, if_pos hst, if_pos h]
+  by_cases h2 : i + st < u
+  · rw [if_pos h2]
+    have e1 : (u - i - 1) / st = (u - (i + st) - 1) / st + 1 := by
+      have : u - i - 1 = (u - (i + st) - 1) + 1 * st := by omega
+      rw [this, Int.add_mul_ediv_right _ _ (by omega)]
+    have hn : 0 ≤ (u - (i + st) - 1) / st := Int.ediv_nonneg (by omega) (by omega)
+    omega
+  · rw [if_neg h2]
+    have : (u - i - 1) / st = 0 := Int.ediv_eq_zero_of_lt (by omega) (by omega)
+    rw [this]; rfl
+
+theorem rangeLen_up_stop {i u st : Int} (hst : 0 < st) (h : ¬ i < u) :
+    Py.rangeLen i u st = 0 := by
+  unfold Py.rangeLen
+  rw [if_pos hst, if_neg h]
+
+theorem rangeLen_down_step {i l st : Int} (hst : st < 0) (h : l < i) :
+    Py.rangeLen i l st = Py.rangeLen (i + st) l st + 1 := by
+  unfold Py.rangeLen
+  have hns : ¬ st > 0 := by omega
+  rw [if_neg hns, if_neg hns, if_pos h]
+  by_cases h2 : l < i + st
+  · rw [if_pos h2]
+    have e1 : (i - l - 1) / (-st) = (i + st - l - 1) / (-st) + 1 := by
+      have : i - l - 1 = (i + st - l - 1) + 1 * (-st) := by omega
+      rw [this, Int.add_mul_ediv_right _ _ (by omega)]
+    have hn : 0 ≤ (i + st - l - 1) / (-st) := Int.ediv_nonneg (by omega) (by omega)
+    omega
+  · rw [if_neg h2]
+    have : (i - l - 1) / (-st) = 0 := Int.ediv_eq_zero_of_lt (by omega) (by omega)
+    rw [this]; rfl
+
+theorem rangeLen_down_stop {i l st : Int} (hst : st < 0) (h : ¬ l < i) :
+    Py.rangeLen i l st = 0 := by
+  unfold Py.rangeLen
+  have hns : ¬ st > 0 := by omega
+  rw [if_neg hns, if_neg h]
+
+theorem range_succ {i u st : Int} (h : Py.rangeLen i u st = Py.rangeLen (i + st) u st + 1) :
+    Py.range i u st = i :: Py.range (i + st) u st := by
+  unfold Py.range
+  rw [h, List.range_succ_eq_map, List.map_cons, List.map_map]
+  congr 1
+  · simp
+  · apply List.map_congr_left
+    intro k _
+    simp only [Function.comp_apply, Nat.succ_eq_add_one, Int.natCast_add, Int.add_mul]
+    omega
+
+
+theorem range_nil {i u st : Int} (h : Py.rangeLen i u st = 0) : Py.range i u st = [] := by
+  unfold Py.range; rw [h]; rfl
+
+theorem loopUp_eq_range {u st : Int} (hst : 0 < st) : ∀ (fuel : Nat) (i : Int),
+    Py.rangeLen i u st ≤ fuel → Spec.loopUp fuel i u st = Py.range i u st := by
+  intro fuel
+  induction fuel with
+  | zero =>
+    intro i h
+    rw [range_nil (by omega)]; rfl
+  | succ f ih =>
+    intro i h
+    by_cases hi : i < u
+    · have hr := rangeLen_up_step hst hi
+      rw [Spec.loopUp, if_pos hi, ih (i + st) (by omega), range_succ hr]
+    · rw [Spec.loopUp, if_neg hi, range_nil (rangeLen_up_stop hst hi)]
+
+theorem loopDown_eq_range {l st : Int} (hst : st < 0) : ∀ (fuel : Nat) (i : Int),
+    Py.rangeLen i l st ≤ fuel → Spec.loopDown fuel i l st = Py.range i l st := by
+  intro fuel
+  induction fuel with
+  | zero =>
+    intro i h
+    rw [range_nil (by omega)]; rfl
+  | succ f ih =>
+    intro i h
+    by_cases hi : l < i
+    · have hr := rangeLen_down_step hst hi
+      rw [Spec.loopDown, if_pos hi, ih (i + st) (by omega), range_succ hr]
+    · rw [Spec.loopDown, if_neg hi, range_nil (rangeLen_down_stop hst hi)]
+
+theorem rangeLen_up_le {l u st : Int} {len : Nat} (hst : 0 < st) (hl : 0 ≤ l) (hu : u ≤ len) :
+    Py.rangeLen l u st ≤ len := by
+  unfold Py.rangeLen
+  rw [if_pos hst]
+  split
+  · have := Int.ediv_le_self (a := u - l - 1) st (by omega)
+    omega
+  · omega
+
+theorem rangeLen_down_le {l u st : Int} {len : Nat} (hst : st < 0) (hl : -1 ≤ l) (hu : u ≤ (len : Int) - 1) :
+    Py.rangeLen u l st ≤ len := by
+  unfold Py.rangeLen
+  rw [if_neg (by omega)]
+  split
+  · have := Int.ediv_le_self (a := u - l - 1) (-st) (by omega)
+    omega
+  · omega
+
+theorem slice_none (len : Nat) (a b c : Option Int)
+    (h : Py.sliceIndices len a b c = none) : Spec.sliceIndices len a b c = [] := by
+  unfold Py.sliceIndices at h
+  unfold Spec.sliceIndices
+  generalize c.getD 1 = st0 at h ⊢
+  by_cases h0 : st0 = 0
+  · simp only [h0, if_true]
+  · simp only [h0, if_false, reduceCtorEq] at h
+
+theorem slice_some (len : Nat) (a b c : Option Int) (s e st : Int)
+    (h : Py.sliceIndices len a b c = some (s, e, st)) :
+    Spec.sliceIndices len a b c = Py.range s e st ∧ Py.rangeLen s e st ≤ len := by
+  unfold Py.sliceIndices at h
+  unfold Spec.sliceIndices
+  generalize c.getD 1 = st0 at h ⊢
+  by_cases h0 : st0 = 0
+  · simp only [h0, if_true, reduceCtorEq] at h
+  · simp only [h0, if_false, Option.some.injEq, Prod.mk.injEq] at h ⊢
+    obtain ⟨hs, he, rfl⟩ := h
+    obtain hpos | hneg : 0 < st0 ∨ st0 < 0 := by omega
+    · have h1 : ¬ st0 < 0 := by omega
+      have h2 : st0 ≥ 0 := by omega
+      simp only [h1, if_false] at hs he
+      simp only [h2, hpos, if_true]
+      have hs' : (Spec.bounds (a.getD 0) (b.getD ↑len) st0 len).fst = s := by
+        cases a <;> simp only [Spec.bounds, Spec.normalize, h2, if_true, Option.getD_none,
+          Option.getD_some] at hs ⊢ <;> omega
+      have he' : (Spec.bounds (a.getD 0) (b.getD ↑len) st0 len).snd = e := by
+        cases b <;> simp only [Spec.bounds, Spec.normalize, h2, if_true, Option.getD_none,
+          Option.getD_some] at he ⊢ <;> omega
+      rw [hs', he']
+      have hl : Py.rangeLen s e st0 ≤ len := by
+        apply rangeLen_up_le hpos
+        · cases a <;> simp only at hs <;> omega
+        · cases b <;> simp only at he <;> omega
+      exact ⟨loopUp_eq_range hpos _ _ (by omega), hl⟩
+    · have h2 : ¬ st0 ≥ 0 := by omega
+      have h3 : ¬ 0 < st0 := by omega
+      simp only [hneg, if_true] at hs he
+      simp only [h2, h3, if_false]
+      have hs' : (Spec.bounds (a.getD (↑len - 1)) (b.getD (-↑len - 1)) st0 len).snd = s := by
+        cases a <;> simp only [Spec.bounds, Spec.normalize, h2, if_false, Option.getD_none,
+          Option.getD_some] at hs ⊢ <;> omega
+      have he' : (Spec.bounds (a.getD (↑len - 1)) (b.getD (-↑len - 1)) st0 len).fst = e := by
+        cases b <;> simp only [Spec.bounds, Spec.normalize, h2, if_false, Option.getD_none,
+          Option.getD_some] at he ⊢ <;> omega
+      rw [hs', he']
+      have hl : Py.rangeLen s e st0 ≤ len := by
+        apply rangeLen_down_le hneg
+        · cases b <;> simp only at he <;> omega
+        · cases a <;> simp only at hs <;> omega
+      exact ⟨loopDown_eq_range hneg _ _ (by omega), hl⟩
+
+theorem selSlice_arr (loc : Loc) (xs : List Json) (a b c : Option Int) :
+    Impl.selSlice a b c ⟨loc, .arr xs⟩ = Spec.selSlice a b c ⟨loc, .arr xs⟩ := by
+  simp only [Impl.selSlice, Spec.selSlice]
+  by_cases hc : c = some 0
+  · subst hc
+    simp [Spec.sliceIndices]
+  · rw [if_neg hc]
+    unfold Py.sliceZip
+    cases h : Py.sliceIndices xs.length a b c with
+    | none => simp only [slice_none _ _ _ _ h, List.filterMap_nil]
+    | some p =>
+      obtain ⟨s, e, st⟩ := p
+      simp only [(slice_some _ _ _ _ _ _ _ h).1, List.map_filterMap]
+      congr 1
+      funext i
+      split
+      · rfl
+      · cases xs[i.toNat]? <;> rfl
+
 theorem selSlice_correct : ∀ (n : Node) (a b c : Option Int),
-    Impl.selSlice a b c n = Spec.selSlice a b c n := by sorry
+    Impl.selSlice a b c n = Spec.selSlice a b c n := by
+  intro n a b c
+  obtain ⟨loc, v⟩ := n
+  cases v <;> first | rfl | exact selSlice_arr _ _ _ _ _
+
+theorem normalize_eq (i : Int) (len : Nat) :
+    Spec.normalize i len = if i < 0 then i + (len : Int) else i := by
+  unfold Spec.normalize
+  split <;> split <;> omega
+
+theorem normIndex_eq (i : Int) (len : Nat) (h : 0 ≤ Spec.normalize i len) :
+    Impl.normIndex i len = Spec.normalize i len := by
+  rw [normalize_eq] at h ⊢
+  unfold Impl.normIndex
+  split at h <;> split <;> omega
+
+theorem pyIndex_eq (xs : List Json) (i : Int) :
+    Py.index xs i =
+      if Spec.normalize i xs.length < 0 then none else xs[(Spec.normalize i xs.length).toNat]? := by
+  unfold Py.index
+  simp only [← normalize_eq]
+  generalize Spec.normalize i xs.length = j
+  by_cases h1 : j < 0
+  · simp only [h1, true_or, if_true]
+  · by_cases h2 : j ≥ xs.length
+    · simp only [h1, h2, or_true, if_true, if_false]
+      rw [List.getElem?_eq_none (by omega)]
+    · simp only [h1, h2, or_self, if_false]
+
+theorem selIndex_arr (loc : Loc) (xs : List Json) (i : Int) :
+    Impl.selIndex i ⟨loc, .arr xs⟩ = Spec.selIndex i ⟨loc, .arr xs⟩ := by
+  simp only [Impl.selIndex, Spec.selIndex, pyIndex_eq]
+  by_cases h1 : Spec.normalize i xs.length < 0
+  · simp only [h1, if_true]
+  · simp only [h1, if_false]
+    rw [normIndex_eq _ _ (by omega)]
+    cases xs[(Spec.normalize i xs.length).toNat]? <;> rfl
 
 theorem selIndex_correct : ∀ (n : Node) (i : Int),
-    Impl.selIndex i n = Spec.selIndex i n := by sorry
+    Impl.selIndex i n = Spec.selIndex i n := by
+  intro n i
+  obtain ⟨loc, v⟩ := n
+  cases v <;> first | rfl | exact selIndex_arr _ _ _
 
 theorem selSlice_loc (xs : List Json) (loc : Loc) (a b c : Option Int) :
     ∀ m ∈ Impl.selSlice a b c ⟨loc, .arr xs⟩,
-      ∃ i : Nat, i < xs.length ∧ m.loc = loc ++ [.idx (i : Int)] ∧ xs[i]? = some m.val := by sorry
+      ∃ i : Nat, i < xs.length ∧ m.loc = loc ++ [.idx (i : Int)] ∧ xs[i]? = some m.val := by
+  intro m hm
+  rw [selSlice_arr] at hm
+  simp only [Spec.selSlice, List.mem_filterMap] at hm
+  obtain ⟨i, _, hi⟩ := hm
+  split at hi
+  · simp at hi
+  · next hneg =>
+    cases hx : xs[i.toNat]? with
+    | none => simp [hx] at hi
+    | some x =>
+      simp only [hx, Option.map_some, Option.some.injEq] at hi
+      subst hi
+      refine ⟨i.toNat, ?_, ?_, ?_⟩
+      · exact (List.getElem?_eq_some_iff.mp hx).1
+      · simp only [Spec.child]
+        rw [Int.toNat_of_nonneg (by omega)]
+      · exact hx
 
 theorem selIndex_loc (xs : List Json) (loc : Loc) (i : Int) :
     ∀ m ∈ Impl.selIndex i ⟨loc, .arr xs⟩,
-      ∃ k : Nat, k < xs.length ∧ m.loc = loc ++ [.idx (k : Int)] ∧ xs[k]? = some m.val := by sorry
+      ∃ k : Nat, k < xs.length ∧ m.loc = loc ++ [.idx (k : Int)] ∧ xs[k]? = some m.val := by
+  intro m hm
+  rw [selIndex_arr] at hm
+  simp only [Spec.selIndex] at hm
+  split at hm
+  · simp at hm
+  · next hneg =>
+    cases hx : xs[(Spec.normalize i xs.length).toNat]? with
+    | none => simp [hx] at hm
+    | some x =>
+      simp only [hx, List.mem_singleton] at hm
+      subst hm
+      refine ⟨(Spec.normalize i xs.length).toNat, ?_, ?_, ?_⟩
+      · exact (List.getElem?_eq_some_iff.mp hx).1
+      · simp only [Spec.child]
+        rw [Int.toNat_of_nonneg (by omega)]
+      · exact hx
 
-theorem selSlice_step_zero (n : Node) (a b : Option Int) : Impl.selSlice a b (some 0) n = [] := by sorry
+theorem selSlice_step_zero (n : Node) (a b : Option Int) : Impl.selSlice a b (some 0) n = [] := by
+  obtain ⟨loc, v⟩ := n
+  cases v <;> simp [Impl.selSlice]
 
 theorem sel_nonarray (n : Node) (h : ∀ xs, n.val ≠ .arr xs) (a b c : Option Int) (i : Int) :
-    Impl.selSlice a b c n = [] ∧ Impl.selIndex i n = [] := by sorry
+    Impl.selSlice a b c n = [] ∧ Impl.selIndex i n = [] := by
+  obtain ⟨loc, v⟩ := n
+  cases v <;> first | exact ⟨rfl, rfl⟩ | exact absurd rfl (h _)
 
 theorem spec_slice_length (len : Nat) (a b c : Option Int) :
-    (Spec.sliceIndices len a b c).length ≤ len := by sorry
+    (Spec.sliceIndices len a b c).length ≤ len := by
+  cases h : Py.sliceIndices len a b c with
+  | none => rw [slice_none _ _ _ _ h]; exact Nat.zero_le _
+  | some p =>
+    obtain ⟨s, e, st⟩ := p
+    obtain ⟨h1, h2⟩ := slice_some _ _ _ _ _ _ _ h
+    rw [h1]
+    simpa [Py.range] using h2
 
 end JPV.Proofs
